@@ -272,6 +272,20 @@ func (matrix *SparseIntMatrix) T() Matrix {
   return m
 }
 func (matrix *SparseIntMatrix) Tip() {
+  if matrix.rows != matrix.rowMax || matrix.cols != matrix.colMax {
+    // slice of a larger matrix: the cycle-following algorithm below permutes
+    // the whole storage; within a window the elements can only be rearranged
+    // if it is square
+    if matrix.rows != matrix.cols {
+      panic("Tip(): a non-square slice cannot be transposed in place")
+    }
+    for i := 0; i < matrix.rows; i++ {
+      for j := i+1; j < matrix.cols; j++ {
+        matrix.values.Swap(matrix.index(i, j), matrix.index(j, i))
+      }
+    }
+    return
+  }
   mn := matrix.values.Dim()
   visited := make([]bool, mn)
   k := 0
